@@ -15,10 +15,18 @@ import (
 	"time"
 )
 
-const (
-	VerifDir = "/verif"
-	RepoDir  = "/repo"
-)
+const VerifDir = "/verif"
+
+// RepoDir is the tree under test. It is /repo for every registered command; the
+// environment variable VERIF_REPO points it at a scratch worktree when a
+// deliberately broken copy is being tried out (mutation experiments), so that
+// /repo itself is never edited while other checks are building from it.
+var RepoDir = func() string {
+	if d := os.Getenv("VERIF_REPO"); d != "" {
+		return d
+	}
+	return "/repo"
+}()
 
 // CheckFunc runs one property check. A returned error means "inconclusive"
 // (tool failure, exit 2); violations are recorded with Ctx.Violate.
